@@ -417,8 +417,6 @@ func (x *Exec) addObl(st *State, name, kind string, goal *Term, pos token.Pos, l
 	}
 	if goal.IsTrue() {
 		o.Trivial = true
-	} else {
-		o.Aid = x.instantiationAid(st, goal)
 	}
 	x.obls = append(x.obls, o)
 	return o
@@ -428,13 +426,13 @@ func (x *Exec) addObl(st *State, name, kind string, goal *Term, pos token.Pos, l
 // goal are instantiated (positive occurrences only, so every instance is a consequence) at: the skolem constants of the
 // goal, witnesses of hypothesis-side existentials, 0, and the points where one of their array reads f(arg(v)) meets a
 // ground read f(t) of the goal or of an earlier instance.
-func (x *Exec) instantiationAid(st *State, goal *Term) []*Term {
+func (x *Exec) instantiationAid(pc []*Term, goal *Term) []*Term {
 	tb := x.tb
 	var hyps []*Term
 	ng := tb.Not(goal)
-	for i := len(st.pc) - 1; i >= 0; i-- {
-		if st.pc[i].hasQ {
-			hyps = append(hyps, st.pc[i])
+	for i := len(pc) - 1; i >= 0; i-- {
+		if pc[i].hasQ {
+			hyps = append(hyps, pc[i])
 		}
 	}
 	if len(hyps) == 0 && !ng.hasQ {
@@ -447,7 +445,7 @@ func (x *Exec) instantiationAid(st *State, goal *Term) []*Term {
 	// witnesses of hypothesis-side existentials (and 0): points for the universals of the negated goal
 	wit := []*Term{}
 	if ng.hasQ {
-		for _, w := range x.aidPoints(st, tb.True()) {
+		for _, w := range x.aidPoints(pc, tb.True()) {
 			// witnesses of hypothesis-side existentials and CRC lemma indices (not the skolems of earlier goals)
 			if len(wit) < 10 && (strings.Contains(w.name, "!wit") || strings.Contains(w.name, "!skf") || strings.HasPrefix(w.name, "crc.k")) {
 				wit = append(wit, w)
@@ -458,9 +456,9 @@ func (x *Exec) instantiationAid(st *State, goal *Term) []*Term {
 	apps := map[string][]*Term{}
 	tb.GroundApps(goal, apps)
 	// array reads in the most recent ground facts of the path (branch conditions of the loop body / callee results)
-	for i, n := len(st.pc)-1, 0; i >= 0 && n < 40; i-- {
-		if !st.pc[i].hasQ {
-			tb.GroundApps(st.pc[i], apps)
+	for i, n := len(pc)-1, 0; i >= 0 && n < 40; i-- {
+		if !pc[i].hasQ {
+			tb.GroundApps(pc[i], apps)
 			n++
 		}
 	}
@@ -539,15 +537,15 @@ func (x *Exec) instantiationAid(st *State, goal *Term) []*Term {
 
 // aidPoints: ground index terms at which quantified hypotheses are instantiated for the aided portfolio arm:
 // the goal's skolem constants and the skolem indices of CRC frame-lemma instances on the path.
-func (x *Exec) aidPoints(st *State, goal *Term) []*Term {
+func (x *Exec) aidPoints(pc []*Term, goal *Term) []*Term {
 	sks := x.tb.Skolems(goal)
 	seen := map[int]bool{}
 	for _, s := range sks {
 		seen[s.id] = true
 	}
 	// witnesses of hypothesis-side existentials and CRC frame-lemma indices, most recent first
-	for i := len(st.pc) - 1; i >= 0 && len(sks) < 60; i-- {
-		a := st.pc[i]
+	for i := len(pc) - 1; i >= 0 && len(sks) < 60; i-- {
+		a := pc[i]
 		if a.hasQ {
 			continue
 		}
